@@ -103,7 +103,7 @@ def harness(L, sw, ch, n, uc, typed=False):
                  "same verdict when asked again": dec_again == dec}
         if dec_short is not None:
             conds["a shorter window after a longer one is judged on its own samples"] = tobool(dec_short) == want_short
-        return tok.discharge(e, conds, lambda m: mk(m, data, meta))
+        return tok.discharge(e, conds, lambda m: mk(m, raw, meta))
     return path
 
 
@@ -232,6 +232,12 @@ def replay_fn(c):
         for _ in range(60):
             cands.append(bytes(rnd.choice(ext) if rnd.random() < 0.5 else rnd.randrange(256) for _ in range(sw * ch * n)))
         cands.append(bytes(sw * ch * n))
+        # the extremes of the sample range, alone and mixed with silence (|most negative| has no positive counterpart)
+        import struct as _st
+        fmt_ = {1: "b", 2: "h", 4: "i"}[sw]
+        lo_, hi_ = -(1 << (8 * sw - 1)), (1 << (8 * sw - 1)) - 1
+        for pat in ([lo_] * (ch * n), [hi_] * (ch * n), [lo_] + [0] * (ch * n - 1), [0] * (ch * n - 1) + [lo_], [lo_, hi_] * (ch * n), [lo_ + 1] * (ch * n)):
+            cands.insert(1, _st.pack("<%d%s" % (ch * n, fmt_), *pat[:ch * n]))
         for raw in cands:
             e_or = concrete_oracle_energy(raw, sw, ch, n, uc)
             # the energy the code itself computes for this window (threshold-independent)
@@ -322,6 +328,7 @@ def configs(tier):
 
 
 def run(rep):
+    tok.VALIDATE[0] = replay_fn
     L = loader.load()
     rep.hashes = L.hashes
     tier = rep.tier
